@@ -136,6 +136,13 @@ def r3_axes(ctx):
         ST = r"torch\.stack\(%s(, dim=0|, 0)?\)"
         ok = bool(_re.fullmatch(ST % _re.escape(b["a"]), a1)) and bool(_re.fullmatch(ST % _re.escape(b["r"]), a2)) \
             and bool(_re.fullmatch(r"\{(%\d+): torch\.stack\((%\d+)(, dim=0|, 0)?\) for \1, \2 in " + _re.escape(b["vh"]) + r"\.items\(\)\}", a0))
+        # a stacked history re-cast on the way: the joint models record a finite pseudo-infinite penalty in double precision
+        CAST = r"\.(to|type|float|half|bfloat16|int|long)\(.*\)"
+        for which, h, a in (("attachment", b["a"], a1), ("regularity", b["r"], a2)):
+            if _re.fullmatch((ST % _re.escape(h)) + CAST, a):
+                ctx.violation("C17.R3", g, call[0], f"the {which} history is re-cast (`{a[:70]}`) before it reaches the estimator: a penalty recorded in double precision (the joint model's 1e307) "
+                              "overflows to inf in single precision, so the draws compared / averaged are no longer the recorded ones", construct=f"{which} history re-cast")
+                ok = True  # reported under its own construct
     ctx.check(ok, "C17.R3", g, call[0] if call else g.node, "(values, attachments, regularities) handed over in this order", "attachment and regularity histories are swapped / not handed to the estimator")
     m = ix.func("leaspy.algo.personalize.mean_posterior", "MeanPosteriorAlgorithm._compute_individual_parameters_from_samples_torch", "C17.R3")
     rets = [s for s in statements(m.node) if isinstance(s, ast.Return)]
